@@ -31,7 +31,7 @@ def obligations(tier):
     C18 = importlib.import_module("props.C18")
     o += [x for x in C18.own_obligations(tier) if x.name == "revive_user_pool"]
     C03 = importlib.import_module("props.C03")
-    o += [x for x in C03.obligations("quick") if x.name in ("join_ult", "join_ext", "exit_focus")]   # a unit that ends by cancel / exit_to releases its joiner (ULT or external) exactly once
+    o += [x for x in C03.obligations("quick") if x.name in ("join_ult", "join_ext", "exit_focus", "cancel_focus")]   # a unit that ends by cancel / exit_to releases its joiner (ULT or external) exactly once
     return o
 
 MANIFEST_ENTRY = {
